@@ -89,7 +89,14 @@ def worker_loop(world, seed, tier, baseline, indices, deadline, timeout, keep_lo
         status, res = core.run_in_child(
             lambda: one_run(world, seed, idx, tier, baseline), timeout=timeout)
         if status == 'timeout':
-            # a hang: regenerate the journal (pure function of the seed) so it can be replayed
+            # a hang -- or merely a loaded machine: run it once more with three times the time
+            # before calling it a violation
+            status, res = core.run_in_child(
+                lambda: one_run(world, seed, idx, tier, baseline), timeout=3 * timeout)
+            if status == 'ok':
+                agg['slow_reruns'] = agg.get('slow_reruns', 0) + 1
+        if status == 'timeout':
+            # regenerate the journal (pure function of the seed) so it can be replayed
             agg['timeouts'] += 1
             st2, jr = core.run_in_child(
                 lambda: world.generate(random.Random(run_seed(world, seed, idx)), tier, idx), 30)
